@@ -298,6 +298,11 @@ class DataPacketReceiver(Elaboratable):
                     with m.Case(0b0001):
                         m.d.comb += data_to_check.eq(Cat(previous_word[8:32], sink.data[0:8]))
 
+                    # If we had no data at all (a zero-length packet), the word captured while "receiving
+                    # the payload" was the CRC itself.
+                    with m.Case(0b0000):
+                        m.d.comb += data_to_check.eq(previous_word)
+
                 # Check our CRC based on the word we've extracted, and strobe either ``packet_good``
                 # or ``packet_bad``, depending on its validity.
                 # The remainder of the CRC is only there once the stream carries a valid word; idle
